@@ -248,6 +248,14 @@ func ReplayFile(path string) int {
 		c := choice.RunOne(scen, rp.Vector, loc)
 		fmt.Println("vector:", choice.Describe(c))
 		fails = c.Fails
+	case "history":
+		fs, ok := replayHistory(&rp)
+		if !ok {
+			fmt.Println("unknown system", rp.Scenario)
+			return 2
+		}
+		fmt.Println("history:", rp.History)
+		fails = fs
 	default:
 		f, ok := Replayers[rp.Scenario]
 		if !ok {
